@@ -1,23 +1,24 @@
 #!/usr/bin/env bash
-# usage: tools/seed_verify.sh <ID>     (worktree /tmp/seed-<ID> with SEED/patch.diff and test/seed_demo_test.go)
-# Confirms, in the scratch worktree: (1) the patch is what is applied, (2) the pinned suite passes with it,
-# (3) the demonstration fails with it and (4) passes without it.
+# usage: tools/seed_verify.sh <ID> [extra go test flags]   (worktree /tmp/seed-<ID> with SEED/patch.diff and a seed_demo_test.go somewhere in the tree)
+# Confirms, in the scratch worktree: the patch applies, the pinned suite passes with it,
+# the demonstration fails with it and passes without it.
 set -u
-ID=$1; W=/tmp/seed-$ID
+ID=$1; shift; W=/tmp/seed-$ID
 export GOFLAGS=-mod=mod GOPROXY=off GOSUMDB=off GOTOOLCHAIN=local CGO_ENABLED=1 TZ=UTC
 cd $W || exit 2
 [ -s SEED/patch.diff ] || { echo "no patch"; exit 2; }
-demo=test/seed_demo_test.go
-[ -f $demo ] || cp SEED/seed_demo_test.go $demo
-mkdir -p /var/tmp/seedtmp.$ID; mv $demo /var/tmp/seedtmp.$ID/demo.go
-git checkout -q -- . ; git clean -fdq -e SEED
+demo=$(git status --short | grep -o '[a-z/]*seed_demo_test.go' | grep -v SEED | head -1)
+[ -n "$demo" ] || { demo=test/seed_demo_test.go; cp SEED/seed_demo_test.go $demo; }
+ddir=./$(dirname $demo)
+T=/var/tmp/seedtmp.$ID; mkdir -p $T; mv $demo $T/demo.go
+git checkout -q -- .
 git apply SEED/patch.diff || { echo "PATCH DOES NOT APPLY"; exit 2; }
 go build ./... || { echo "DOES NOT BUILD"; exit 2; }
-if go test -vet=off -count=1 $(go list ./... | grep -v /SEED) >/var/tmp/seedtmp.$ID/suite.log 2>&1; then echo "suite with change: PASS"; else echo "suite with change: FAIL"; tail -20 /var/tmp/seedtmp.$ID/suite.log; fi
+if go test -vet=off -count=1 $(go list ./... | grep -v /SEED) >$T/suite.log 2>&1; then echo "suite with change: PASS"; else echo "suite with change: FAIL"; tail -20 $T/suite.log; fi
 git status --short | grep -v SEED
-cp /var/tmp/seedtmp.$ID/demo.go $demo
-if go test -vet=off -count=1 ./test -run 'Seed' >/var/tmp/seedtmp.$ID/demo_with.log 2>&1; then echo "demo with change: PASS (unexpected)"; else echo "demo with change: FAIL (expected)"; fi
+cp $T/demo.go $demo
+if timeout 600 go test -vet=off -count=1 "$@" -run 'Seed' $ddir >$T/with.log 2>&1; then echo "demo with change: PASS (unexpected)"; else echo "demo with change: FAIL (expected)"; fi
 git apply -R SEED/patch.diff
-if go test -vet=off -count=1 ./test -run 'Seed' >/var/tmp/seedtmp.$ID/demo_without.log 2>&1; then echo "demo without change: PASS (expected)"; else echo "demo without change: FAIL (unexpected)"; tail -20 /var/tmp/seedtmp.$ID/demo_without.log; fi
+if timeout 600 go test -vet=off -count=1 "$@" -run 'Seed' $ddir >$T/without.log 2>&1; then echo "demo without change: PASS (expected)"; else echo "demo without change: FAIL (unexpected)"; tail -20 $T/without.log; fi
 git apply SEED/patch.diff
-rm -rf /var/tmp/seedtmp.$ID
+rm -rf $T
